@@ -1,6 +1,6 @@
 (* Model/Routes.v — executable model of automatic route discovery:
      sshuttle/server.py:20-132   _ipmatch _ipstr _maskbits _shl _route_netstat
-                                 _route_iproute _list_routes list_routes
+                                 _route_iproute _route_windows _list_routes list_routes
      sshuttle/server.py:314-324  the ROUTES packet
      sshuttle/ssnet.py:382-386   Mux.send (length assert)  -- reused from Model/Wire.v
      sshuttle/client.py:731-762  onroutes / serverready
@@ -366,6 +366,47 @@ Definition route_iproute (line : bytes) : extract_result :=
   end.
 
 (* ------------------------------------------------------------------ *)
+(* _route_windows  (server.py:82-93): one line of `route PRINT -4`
+       if " On-link " not in line: return None, None
+       dest, net_mask = re.split(r'\s+', line.strip())[:2]
+       if net_mask == "255.255.255.255": return None, None
+       for p in ('127.', '0.', '224.', '169.254.'): if dest.startswith(p): return None, None
+       ipw = _ipmatch(dest); mask = _maskbits(_ipmatch(net_mask))
+   On an ASCII str, re's \s and str.strip()/str.split() use the same white-space
+   class (is_space_s), and line.strip() is not empty here (it contains "On-link"),
+   so re.split(r'\s+', line.strip()) = line.split() = words line.  With fewer than
+   two words the tuple assignment raises ValueError. *)
+
+(* p in s *)
+Fixpoint contains (p s : bytes) : bool :=
+  starts_with p s || match s with [] => false | _ :: t => contains p t end.
+
+Definition s_onlink : bytes := [" "; "O"; "n"; "-"; "l"; "i"; "n"; "k"; " "]%char.
+Definition s_bcast : bytes :=
+  ["2"; "5"; "5"; "."; "2"; "5"; "5"; "."; "2"; "5"; "5"; "."; "2"; "5"; "5"]%char.
+Definition s_224dot : bytes := ["2"; "2"; "4"; "."]%char.
+Definition s_169_254dot : bytes := ["1"; "6"; "9"; "."; "2"; "5"; "4"; "."]%char.
+Definition win_skip_prefixes : list bytes :=
+  [["1"; "2"; "7"; "."]%char; ["0"; "."]%char; s_224dot; s_169_254dot].
+
+Definition win_skip (dest : bytes) : bool :=
+  existsb (fun p => starts_with p dest) win_skip_prefixes.
+
+Definition route_windows (line : bytes) : extract_result :=
+  if negb (contains s_onlink line) then Ok None
+  else match words line with
+       | dest :: net_mask :: _ =>
+         if bytes_eqb net_mask s_bcast then Ok None
+         else if win_skip dest then Ok None
+         else
+           bind (ipmatch dest) (fun ipw =>
+           bind (ipmatch net_mask) (fun maskw =>
+           let mask := maskbits maskw in
+           Ok (match ipw with Some x => Some (x, mask) | None => None end)))
+       | _ => Crash ValueError                    (* dest, net_mask = [...][:2] *)
+       end.
+
+(* ------------------------------------------------------------------ *)
 (* _list_routes  (server.py:96-114) *)
 
 Definition AF_INET : Z := 2%Z.      (* socket.AF_INET (same on Linux and BSD) *)
@@ -435,15 +476,18 @@ Fixpoint scan_lines (scan : bytes -> res (option route)) (lines : list bytes)
   end.
 
 (* ------------------------------------------------------------------ *)
-(* list_routes  (server.py:117-132), non-Windows branch *)
+(* list_routes  (server.py:117-132): sys.platform == 'win32' -> `route PRINT -4`
+   (RouteWin); otherwise `ip route` if which('ip'), else `netstat -rn` if
+   which('netstat'), else no routes (NoTool) *)
 
-Inductive tool := IpRoute | Netstat | NoTool.
+Inductive tool := IpRoute | Netstat | NoTool | RouteWin.
 
 Definition extractor (t : tool) : bytes -> extract_result :=
   match t with
   | IpRoute => route_iproute
   | Netstat => route_netstat
   | NoTool => fun _ => Ok None
+  | RouteWin => route_windows
   end.
 
 Definition s_0dot : bytes := ["0"; "."]%char.
